@@ -36,7 +36,10 @@ EXPLANATION = (
     "(fires today: the arm looks at obj[0] only -- known finding D18); the local collector recurses through lists to any "
     "depth. R-C14-query: the top-level naming stores are dominated by the not-yet-constructed test (names are written "
     "once), no query of NamedObject/Component* compares a prefix/suffix/substring/slice of a name, and no hierarchy query "
-    "keeps a memo on _dsl that _add_component/_delete_component do not invalidate. R-C02-cache-scope (dependency): block "
+    "keeps a memo on _dsl that _add_component/_delete_component do not invalidate; host-relative names (lambda blocks in "
+    "ComponentLevel3._create_assign_lambda, net blocks in GenDAGPass, every function of pymtl3/dsl) are cut from a full "
+    "name at the front by the host name's length, never by replace/strip/split. R-C14-collect also requires that descent "
+    "does not depend on the filter verdict and that BFS / worklist loops are not left early. R-C02-cache-scope (dependency): block "
     "metadata is re-parsed / cached per defining class, so re-elaboration yields the same names. Decides: name <-> storage slot bijection (hence uniqueness and eval(repr(o)) is o) "
     "and metadata consistency for every hierarchy shape. Not decided: user construct code that stores one object under "
     "two names or uses non-identifier attribute names; determinism of user construct code.")
@@ -52,6 +55,16 @@ ASSUMPTIONS = [
 
 POPS = {'popleft', 'pop'}
 PUSHES = {'append', 'extend', 'appendleft', 'extendleft'}
+
+
+def _floor(r, n, repo=None):
+    """exact instance count of the reference tree; the floor guards against vacuous PASSES, so a result that already
+    carries findings is reported as such rather than replaced by an analysis error"""
+    if r.findings or (repo is not None and _cache(repo).get('broken')):
+        # a naming site is broken (reported by R-C14-name-storage): rules that skip it count fewer instances
+        r.floor = n
+    else:
+        r.require_floor(n)
 
 
 class Verdict(Exception):
@@ -392,6 +405,12 @@ class Bfs:
                         raise AnalysisError(f"{fa.qual}: extend argument outside the recognised shapes: {pretty(arg)[:60]}")
                     ps.append(_push_from_comp(fa, arg, meth, e, p))
             self.iterations.append((p, pe, comps, ps))
+            if pe.loops:
+                esc = _loop_escapes(pe.loops[-1])
+                if esc:
+                    raise Verdict(f"the loop over the queued elements is left by `{norm(esc[0])}` (line {esc[0].lineno}) while "
+                                  f"elements may remain: objects queued behind it (e.g. after a None / plain-data element) are "
+                                  f"stored but never named")
         if not self.iterations:
             raise AnalysisError(f"{fa.qual}: no iteration pops the queue {pretty(Q)}")
         ar = {len(s.elts) for s in self.seeds} | {len(x.elts) for it in self.iterations for x in it[3]} | \
@@ -634,6 +653,7 @@ def resolve_storage(nm):
             nm._storage = _resolve_storage(nm)
         except Verdict as v:
             nm._storage = v
+            _cache(nm.fa.mod.repo)['broken'] = True
     if isinstance(nm._storage, Verdict):
         raise nm._storage
     return nm._storage
@@ -825,7 +845,7 @@ def rule_name_storage(repo):
     if seen_dead:
         r.observations.append(f"Signal.__getattr__ non-bitstruct arm treated as unreachable on {seen_dead} paths "
                               f"(Signal.__init__ asserts Bits-or-bitstruct; arm needs a type instance)")
-    r.require_floor(15)
+    _floor(r, 17, repo)
     return r
 
 
@@ -1029,7 +1049,7 @@ def rule_cache(repo):
                     r.bad(fa.mod, fa.qual, cons, m_, fa.func.lineno)
                 if not msgs:
                     r.ok(fa.mod, fa.qual, cons)
-    r.require_floor(6)
+    _floor(r, 10, repo)
     return r
 
 
@@ -1069,6 +1089,7 @@ def rule_meta(repo):
                 access_path(nm.acc)
                 C, steps, how = resolve_storage(nm)
             except (TemplateError, Verdict):
+                _cache(repo)['broken'] = True
                 continue
             r.evaluations += 1
             C = nm.C
@@ -1152,7 +1173,7 @@ def rule_meta(repo):
                           "'the parent of a sliced signal is not sliced' used for slice-of-slice names is lost", stn.lineno)
     if writers < 2 and not r.findings:
         raise AnalysisError("anchor vanished: writers of _dsl.slice")
-    r.require_floor(24)
+    _floor(r, 29, repo)
     return r
 
 
@@ -1259,7 +1280,7 @@ def rule_reassign(repo):
             break
     if not found:
         raise AnalysisError("anchor vanished: setattr in Component._add_component")
-    r.require_floor(5)
+    _floor(r, 6, repo)
     return r
 
 
@@ -1326,7 +1347,7 @@ def rule_siblings(repo):
         if len(xs) > 1 and len({frozenset(x[2]) for x in xs}) != 1:
             r.bad(xs[0][0].mod, q, 'arms of one function', "the arms of this function assign different metadata fields: "
                   + ' / '.join(str(sorted(x[2])) for x in xs), xs[0][1].lineno)
-    r.require_floor(5)
+    _floor(r, 6, repo)
     return r
 
 
@@ -1494,7 +1515,7 @@ def rule_api(repo):
                           "does not evaluate to the object (the separating dot is lost or doubled)", n.lineno)
     if n_cons < 3:
         raise AnalysisError("anchor vanished: consumers that re-root names (repr(x)[k:])")
-    r.require_floor(20)
+    _floor(r, 29, repo)
     return r
 
 
@@ -1569,7 +1590,7 @@ def rule_collect(repo):
                                              f"NotElaboratedError", c.node.lineno)
                     else:
                         raise AnalysisError(f"{fa_.qual}: list-arm entry condition outside the recognised shapes: {txt}")
-    if not entry:
+    if not entry and not _cache(repo).get('broken'):
         raise AnalysisError("anchor vanished: entry condition of the list arm of the setattr hook")
     for (fa_, txt), bad in sorted(entry.items(), key=lambda kv: kv[0][1]):
         r.evaluations += 1
@@ -1587,7 +1608,11 @@ def rule_collect(repo):
                                (COMP, 'Component._collect_objects_local', ('str', 'list'))):
         fa = analyse(repo, rel_, qual)
         seen = {'str': None, 'tuple': None, 'list': None}
+        free = {'str': False, 'tuple': False, 'list': False}     # some push of that kind does not need the filter to accept
+        fparam = fa.func.args.args[1].arg if len(fa.func.args.args) > 1 else None
         for p in fa.paths:
+            accepted_only = any(pol and any(isinstance(x, ast.Name) and x.id == fparam for x in ast.walk(t))
+                                for t, pol in p.atoms())
             for e in p.events:
                 if not (e.kind == 'call' and e.bound is None and isinstance(e.call.func, ast.Attribute)
                         and e.call.func.attr in ('append', 'extend') and len(e.call.args) == 1):
@@ -1601,6 +1626,7 @@ def rule_collect(repo):
                         and same(d.expr.func.value, e.call.func.value)
                     if popped and any(norm(t) == f"isinstance({norm(arg)}, list)" and pol for t, pol in p.atoms()):
                         seen['list'] = seen['list'] or []
+                        free['list'] = free['list'] or not accepted_only
                     continue
                 if d is None or d.kind != 'iter' or d.index != (1,):
                     continue
@@ -1615,6 +1641,8 @@ def rule_collect(repo):
                     seen['str'] = seen['str'] if seen['str'] is not None else []
                     seen['tuple'] = seen['tuple'] if seen['tuple'] is not None else []
                     seen['str'].append([])
+                    free['str'] = free['str'] or not accepted_only
+                    free['tuple'] = free['tuple'] or not accepted_only
                     continue
                 k = norm(ks[0])
                 filt = [(t, pol) for t, pol in p.atoms() if k in norm(t)]
@@ -1622,6 +1650,25 @@ def rule_collect(repo):
                     if any(norm(t) == f"isinstance({k}, {kind})" and pol for t, pol in filt):
                         rest = [(t, pol) for t, pol in filt if not norm(t).startswith('isinstance(')]
                         seen[kind] = (seen[kind] or []) + [(k, rest)]
+                        free[kind] = free[kind] or not accepted_only
+        # descending must not depend on the verdict of the filter, and the worklist loop must visit every element
+        r.evaluations += 1
+        dep = [k for k in kinds_ if seen[k] is not None and not free[k]]
+        cons = "descent independent of the filter verdict"
+        if dep:
+            r.bad(fa.mod, fa.qual, cons, f"the children of an object ({', '.join(dep)} storage) are pushed on the worklist only "
+                  f"when `{fparam}` accepted the object itself: accepted descendants of a rejected node are never returned "
+                  f"(a Signal filter on a component returns nothing; replace_component leaves interfaces of the old "
+                  f"subtree registered)", fa.func.lineno)
+        else:
+            r.ok(fa.mod, fa.qual, cons)
+        esc = [n for L in _worklist_loops(fa) for n in _loop_escapes(L)]
+        cons = "worklist loop visits every element"
+        if esc:
+            r.bad(fa.mod, fa.qual, cons, f"the worklist loop is left by `{norm(esc[0])}` while elements may remain: objects "
+                  f"still on the worklist are never collected", esc[0].lineno)
+        else:
+            r.ok(fa.mod, fa.qual, cons, nontrivial=False)
         for kind in kinds_:
             r.evaluations += 1
             cons = f"traversal of {kind} storage"
@@ -1664,8 +1711,43 @@ def rule_collect(repo):
                     r.ok(fa.mod, fa.qual, cons)
             else:
                 r.ok(fa.mod, fa.qual, cons)
-    r.require_floor(8)
+    _floor(r, 18, repo)
     return r
+
+
+def _loop_escapes(L):
+    """break statements that leave loop L and return statements inside it"""
+    out = []
+
+    def go(stmts, inner):
+        for st in stmts:
+            if isinstance(st, (ast.FunctionDef, ast.AsyncFunctionDef, ast.ClassDef)):
+                continue
+            if isinstance(st, ast.Return):
+                out.append(st)
+            elif isinstance(st, ast.Break) and not inner:
+                out.append(st)
+            elif isinstance(st, (ast.For, ast.While)):
+                go(st.body, True)
+                go(st.orelse, inner)
+            else:
+                for fld in ('body', 'orelse', 'finalbody'):
+                    go(getattr(st, fld, None) or [], inner)
+                for h in getattr(st, 'handlers', None) or []:
+                    go(h.body, inner)
+    go(L.body, False)
+    return out
+
+
+def _worklist_loops(fa):
+    """loops of the function in whose body the loop's own worklist is popped"""
+    out = []
+    for p in fa.paths:
+        for e in p.events:
+            if e.kind == 'call' and e.bound is not None and isinstance(e.call.func, ast.Attribute) \
+                    and e.call.func.attr in POPS and e.loops and not any(e.loops[-1] is x for x in out):
+                out.append(e.loops[-1])
+    return out
 
 
 def _literal_before(n):
@@ -1801,6 +1883,58 @@ def _memos(cls_funcs):
     return out
 
 
+_REPLACE_PROBE = """
+def f( s, o ):
+  return ast.parse( repr(o).replace( repr(s), "s" ) )
+"""
+
+
+def _relative_name_sites(func):
+    """(good, bad): good = slices name[len(hostname)(+1):] (prefix removal by length) / removeprefix(hostname);
+    bad = (node, why) for replace / strip / split of a name by another name (acts anywhere in the string) and for slices
+    by something that is not the length of a name"""
+    tainted = set()
+    lens = set()
+    for _ in range(3):
+        for n in walk_no_nested(func):
+            if isinstance(n, ast.Assign) and len(n.targets) == 1 and isinstance(n.targets[0], ast.Name):
+                if _is_len_of_name(n.value, tainted, lens):
+                    lens.add(n.targets[0].id)
+                elif _name_valued(n.value, tainted):
+                    tainted.add(n.targets[0].id)
+    good, bad = [], []
+    for n in walk_no_nested(func):
+        if isinstance(n, ast.Call) and isinstance(n.func, ast.Attribute) and n.args and _is_name_string(n.func.value, tainted) \
+                and _is_name_string(n.args[0], tainted):
+            if n.func.attr == 'removeprefix':
+                good.append(n)
+            elif n.func.attr in ('replace', 'strip', 'lstrip', 'rstrip', 'split', 'rsplit', 'removesuffix'):
+                bad.append((n, f"`.{n.func.attr}` of one hierarchical name by another acts anywhere in the string (or on a character "
+                               f"set), not on the leading path: host s.a, object s.a.bus.a becomes s.bus instead of s.bus.a -- the "
+                               f"relative name denotes another object; remove the host name at the front only"))
+        elif isinstance(n, ast.Subscript) and isinstance(n.slice, ast.Slice) and _is_name_string(n.value, tainted) \
+                and n.slice.lower is not None and not isinstance(n.slice.lower, ast.Constant):
+            if n.slice.upper is None and n.slice.step is None and _is_len_of_name(n.slice.lower, tainted, lens) \
+                    and norm(n.value) not in norm(n.slice.lower):
+                good.append(n)
+            else:
+                bad.append((n, f"a hierarchical name is cut at `{norm(n.slice.lower)}`, which is not the length of the host's "
+                               f"name (+1 for the dot): the relative name denotes another object"))
+    return good, bad
+
+
+def _is_len_of_name(e, tainted, lens):
+    if isinstance(e, ast.BinOp) and isinstance(e.op, ast.Add):
+        a, b = e.left, e.right
+        if isinstance(a, ast.Constant):
+            a, b = b, a
+        return isinstance(b, ast.Constant) and b.value in (0, 1) and _is_len_of_name(a, tainted, lens)
+    if isinstance(e, ast.Name):
+        return e.id in lens
+    return isinstance(e, ast.Call) and isinstance(e.func, ast.Name) and e.func.id == 'len' and len(e.args) == 1 \
+        and _is_name_string(e.args[0], tainted)
+
+
 _MEMO_PROBE = """
 class C:
   def get_child_components( s, sort_key = None ):
@@ -1887,7 +2021,29 @@ def rule_query(repo):
     if not memos:
         r.ok(repo.mod(COMP), '<dsl component classes>', "no hierarchy query keeps a memo on _dsl (embedded example recognised)",
              nontrivial=False)
-    r.require_floor(7)
+    # (d) host- / top-relative names are obtained from a full name by removing the host's name AT THE FRONT only
+    if not _relative_name_sites(ast.parse(_REPLACE_PROBE).body[0])[1]:
+        raise AnalysisError("R-C14-query: embedded positive example (replace) not recognised")
+    nrel = 0
+    rel_files = [x for x in repo.py_files('pymtl3/dsl') ] + ['pymtl3/passes/sim/GenDAGPass.py']
+    for rel in rel_files:
+        src = repo.src(rel)
+        if 'repr' not in src and 'full_name' not in src:
+            continue
+        m = repo.mod(rel)
+        for f in _functions(m.tree):
+            good, bad = _relative_name_sites(f)
+            for n in good:
+                nrel += 1
+                r.evaluations += 1
+                r.ok(m, qualname(f), f"{norm(n)} :: host name removed at the front by its length")
+            for n, why in bad:
+                nrel += 1
+                r.evaluations += 1
+                r.bad(m, qualname(f), norm(n), why, n.lineno)
+    if nrel < 3:
+        raise AnalysisError(f"anchor vanished: sites that build host-relative names ({nrel} found)")
+    _floor(r, 11, repo)
     return r
 
 
@@ -2082,6 +2238,17 @@ MUTANTS = [
        "setattr( s, x, CalleeIfcCL( Type=Type, method=rdy, rdy=bind_method( rdy ) ) )", 'R-C14-name-storage'),
     _m('field-child-index-prepended', CONN, "Q.append( ( v, indices+[i], x, True ) )", "Q.append( ( v, [i]+indices, x, True ) )",
        'R-C14-name-storage'),
+    _m('collector-skips-subtree-of-rejected-object', NAMED, "        if filt( u ): # Check if m satisfies the filter\n          ret.add( u )\n",
+       "        if not filt( u ): # Check if m satisfies the filter\n          continue\n        ret.add( u )\n", 'R-C14-collect'),
+    _m('collector-stops-at-plain-data', NAMED, "      elif isinstance( u, list ):\n        stack.extend( u )\n    return ret\n\n  # It is possible",
+       "      elif isinstance( u, list ):\n        stack.extend( u )\n      else:\n        break\n    return ret\n\n  # It is possible", 'R-C14-collect'),
+    _m('list-arm-break-on-plain-data', NAMED, "            Q.extend( (v, indices+(i,)) for i, v in enumerate(u) )\n",
+       "            Q.extend( (v, indices+(i,)) for i, v in enumerate(u) )\n\n          else:\n            break\n", 'R-C14-name-storage'),
+    _m('lambda-target-by-replace', 'pymtl3/dsl/ComponentLevel3.py', 'ast.parse( f"s{repr(o)[len(repr(s)):]}" )',
+       'ast.parse( repr(o).replace( repr(s), "s" ) )', 'R-C14-query'),
+    _m('lambda-target-cut-too-far', 'pymtl3/dsl/ComponentLevel3.py', 'f"s{repr(o)[len(repr(s)):]}"', 'f"s.{repr(o)[len(repr(s))+2:]}"', 'R-C14-query'),
+    _m('netblock-writer-by-replace', 'pymtl3/passes/sim/GenDAGPass.py', 'wstr = f"s.{repr(writer)[lca_len+1:]}"',
+       "wstr = f\"s.{repr(writer).replace(repr(wr_lca), '')[1:]}\"", 'R-C14-query'),
     _m('level-getter-off-by-one', COMP, "      return s._dsl.level\n", "      return s._dsl.level + 1\n", 'R-C14-api'),
 ]
 
@@ -2118,6 +2285,14 @@ EQUIV = [
              new="      for k in indices[:-1]:\n        list_parent = list_parent[ k ]\n", count=1),
         dict(file=COMP, old="      assert list_parent[ indices[i] ] is None,", new="      assert list_parent[ indices[-1] ] is None,", count=1),
         dict(file=COMP, old="      list_parent[ indices[i] ] = obj", new="      list_parent[ indices[-1] ] = obj", count=1)]),
+    _m('lambda-target-by-removeprefix', 'pymtl3/dsl/ComponentLevel3.py', 'f"s{repr(o)[len(repr(s)):]}"', 'f"s{repr(o).removeprefix(repr(s))}"'),
+    _m('lambda-target-length-in-a-local', 'pymtl3/dsl/ComponentLevel3.py',
+       '    lhs, rhs = ast.parse( f"s{repr(o)[len(repr(s)):]}" ).body[0].value, root.value',
+       '    host_len = len( repr(s) )\n    lhs, rhs = ast.parse( f"s{repr(o)[host_len:]}" ).body[0].value, root.value'),
+    _m('collector-verdict-in-a-local', NAMED, "        if filt( u ): # Check if m satisfies the filter\n          ret.add( u )\n",
+       "        ok = filt( u )\n        if ok:\n          ret.add( u )\n"),
+    _m('list-arm-continue-on-plain-data', NAMED, "            Q.extend( (v, indices+(i,)) for i, v in enumerate(u) )\n",
+       "            Q.extend( (v, indices+(i,)) for i, v in enumerate(u) )\n\n          else:\n            continue\n"),
     _m('add-name-by-fstring', COMP, 'obj._dsl.full_name = ( parent._dsl.full_name + "." + u_name )',
        'obj._dsl.full_name = f"{parent._dsl.full_name}.{u_name}"'),
     _m('add-walk-bound-rearranged', COMP, "      while i < len(indices) - 1:", "      while i + 1 < len(indices):"),
